@@ -453,7 +453,13 @@ class HistoryGen:
             n = r.choice(names)
             c = self.cfg_of(n)
             post = self.shift() if r.random() < 0.3 else 0.0
-            return dict(k="addeom", ch=n, dur=max(1, self.duration(c)), phase=self.phase(), post=post,
+            # a third of the EOM pulses repeat the nominal phase of the previous one on the channel (with drift
+            # correction the scheduled phases still differ: the phase-jump wait depends on the corrected phase)
+            last = getattr(self, "_last_eom_phase", {})
+            ph = last[n] if n in last and r.random() < 0.33 else self.phase()
+            last[n] = ph
+            self._last_eom_phase = last
+            return dict(k="addeom", ch=n, dur=max(1, self.duration(c)), phase=ph, post=post,
                         proto=self.proto(), corr=(not self.exact) and r.random() < 0.4)
         if k == "measure":
             bases = sorted({self.basis_of(n) for n in t.declared})
